@@ -2,7 +2,7 @@
 (* C02 on the real parser: (1) the tree returned by parse_expression for the text of a flat
    expression equals Denote(flat); (2) for a random token string the parser accepts iff the
    token-level grammar does, and a rejection is a BareScriptParserError.                     *)
-EXTENDS BareExprSyntax, Json, IOUtils
+EXTENDS BareExprSyntax, Json, IOUtils, TreeEq
 Cases == JsonDeserialize(IOEnv.CASES)
 VARIABLES tid, verdict
 vars == <<tid, verdict>>
@@ -10,7 +10,7 @@ C == Cases[tid]
 Law ==
     IF C.kind = "flat" THEN
         IF C.outcome # "ok" THEN <<"REJECT", "well-formed-expression-rejected", C.outcome>>
-        ELSE IF C.parsed # Denote(C.flat) THEN <<"REJECT", "tree", <<Denote(C.flat), C.parsed>>>>
+        ELSE IF ~ExprEq(C.parsed, Denote(C.flat)) THEN <<"REJECT", "tree", <<Denote(C.flat), C.parsed>>>>
         ELSE <<"ACCEPT">>
     ELSE
         IF C.outcome \notin {"ok", "BareScriptParserError"} THEN <<"REJECT", "escaped", C.outcome>>
